@@ -388,7 +388,12 @@ Definition check1 (c : c15case) : list N :=
   match c with
   | C15Run debug m budget planted h ch e trace res =>
       if negb (module_in_domain m) then [3]
-      else model_codes_run debug m budget e trace res ++ run_oracle planted h ch e trace res
+      else
+        (* a known-class code never hides a disagreement of the models on the same case *)
+        match model_codes_run debug m budget e trace res with
+        | [] => run_oracle planted h ch e trace res
+        | mc => mc ++ filter (fun c => c <? 10) (run_oracle planted h ch e trace res)
+        end
   | C15Comp debug m planted e l res =>
       if negb (module_in_domain m) then [3]
       else model_codes_comp debug m e l res ++ comp_oracle planted l res
